@@ -1,0 +1,19 @@
+//go:build verif
+
+package generic
+
+// Machine-checked contracts for the gowp verifier (/verif). Comment-only; compiled only under the
+// build tag "verif"; declares nothing.
+//
+// A handler runs against the server $srv whose bound keyspace functions it receives in params; henv is the
+// environment every handler may rely on (established by sugardb.(*SugarDB).handleCommand in standalone mode).
+
+//@ spec henv(params internal.HandlerFuncParams) bool = hasdb(params.Context) && sugardb.standalone($srv) && $srv.snapshotEngine != nil && inv($srv, maps) && inv($srv, locks) && inv($srv, dbs) && sugardb.cachewf($srv, dbof(params.Context)) && nolocks()
+
+//@ func handleGet props C01,C04,C13
+//@   requires henv(params)
+//@   assumes own-cmd: len(params.Command) >= 2 ==> disjointarr(params.Command, $srv.keysWithExpiry.keys[dbof(params.Context)])
+//@   ensures {C01} arity: len(params.Command) != 2 ==> result1 != nil
+//@   ensures {C13} pure: forall k string :: has($srv.store[dbof(params.Context)], k) ==> old(has($srv.store[dbof(params.Context)], k)) && $srv.store[dbof(params.Context)][k] == old($srv.store[dbof(params.Context)][k])
+//@   ensures {C13,C04} onlyexpired: forall k string :: old(has($srv.store[dbof(params.Context)], k)) && !has($srv.store[dbof(params.Context)], k) ==> old(sugardb.expired($srv.store[dbof(params.Context)][k], $now))
+//@   ensures {C20} otherdbs: forall d int :: d != dbof(params.Context) ==> $srv.store[d] == old($srv.store[d])
